@@ -1,7 +1,7 @@
 """Rule instances shared by several properties (C01/C02/C10/C17 …)."""
 import re
 from engine.rules import (MustPass, guard_edges, eq_matcher, pred_matcher, outcome, aggregates_of,
-                          calls_to, call_checked, fmt_path, bool_atom, switch_bool_edges)
+                          calls_to, call_checked, fmt_path, bool_atom, switch_bool_edges, variant_edge_fails)
 from engine.sym import Sym, strip, strip_deep, render, walk, short, roots
 
 _SYMS = {}
@@ -118,6 +118,8 @@ def _subst(term, mapping):
         return mapping.get(term[1], term)
     if k in ("field", "variant"):
         return (k, _subst(term[1], mapping), term[2])
+    if k == "mvar":
+        return ("mvar", term[1], term[2], _subst(term[3], mapping))
     if k == "index":
         return (k, _subst(term[1], mapping), _subst(term[2], mapping))
     if k == "call":
@@ -470,3 +472,143 @@ def check_validity_window(ctx, f):
         ctx.ob("R-CHK", "Validity::verify_at→%s" % callee, ok,
                "Validity::verify_at checks %s.%s(now) on every success path" % (recv, callee), where=b.loc,
                detail=None if ok else why(f, mp, V))
+
+
+# ---------------------------------------------------------------------------
+# R-REG helpers
+
+from engine import absint
+
+
+def run_absint(f, fname, **kw):
+    it = absint.Interp(f, **kw)
+    try:
+        paths = it.run(fname)
+    except absint.Unsupported as e:
+        return None, it, str(e)
+    return paths, it, None
+
+
+def _norm_byte_expr(s):
+    s = re.sub(r"Div\((.*), 256\)", r"Shr(\1, 8)", s)
+    s = re.sub(r"BitAnd\((.*), 255\)", r"(\1 as u8)", s)
+    s = re.sub(r"Rem\((.*), 256\)", r"(\1 as u8)", s)
+    s = re.sub(r"^\(\((.*) as u8\) as u8\)$", r"(\1 as u8)", s)
+    return s
+
+
+def check_encode_verify(ctx, f, rule="R-REG"):
+    """SignedAttrs::encode_verify emits the DER SET-OF header for every length region."""
+    fn = "repository::sigobj::SignedAttrs::encode_verify"
+    b = f.body(fn)
+    if b is None:
+        return ctx.missing(rule, "encode_verify", fn)
+    ctx.saw_fn(fn)
+    paths, it, err = run_absint(f, fn, sym_names={"Bytes::len(self.0)": "len"})
+    if paths is None:
+        return ctx.ob(rule, "encode_verify:analysable", False, "cannot establish: " + err, where=b.loc)
+    L = "len"
+    spec = [
+        ((0, 127), ["49", L]),
+        ((128, 255), ["49", "129", L]),
+        ((256, 65535), ["49", "130", "Shr(%s, 8)" % L, "(%s as u8)" % L]),
+    ]
+    delegated = any(any(e[0].startswith("encode::") or "bcder::encode" in e[0] for e in p.effects) for p in paths)
+    if delegated and not any(e[0] == "Vec::push" for p in paths for e in p.effects):
+        ctx.ob(rule, "encode_verify:delegates-to-bcder", True,
+               "encode_verify delegates the SET-OF framing to bcder's DER encoder (library summary: DER lengths)",
+               where=b.loc)
+        return
+    for (lo, hi), want in spec:
+        ps = absint.paths_in_region(paths, absint.region_constraints(L, lo, hi))
+        ok = bool(ps)
+        details = []
+        for p in ps:
+            pushes = [_norm_byte_expr(e[1][1]) for e in p.effects if e[0] == "Vec::push"]
+            # a narrowing cast of a value already below 256 is the value itself
+            pushes = [re.sub(r"^\(len as u8\)$", "len", x) if hi <= 255 else x for x in pushes]
+            wantn = [re.sub(r"^\(len as u8\)$", "len", x) if hi <= 255 else x for x in want]
+            ext = [e for e in p.effects if e[0] == "Vec::extend_from_slice"]
+            good = p.outcome[0] == "return" and pushes == wantn and len(ext) == 1 and ext[0][1][1] == "self.0" \
+                and p.effects.index(ext[0]) > max([i for i, e in enumerate(p.effects) if e[0] == "Vec::push"] or [-1])
+            details.append({"region": p.zone.describe(), "header_bytes": pushes, "outcome": absint.outcome_str(p.outcome),
+                            "expected_header": wantn})
+            ok = ok and good
+        ctx.ob(rule, "encode_verify:len∈[%d,%d]" % (lo, hi), ok,
+               "for %d ≤ len ≤ %d encode_verify emits DER header %s followed by the attribute bytes" % (lo, hi, want),
+               where=b.loc, detail=details)
+    # the only constructors of SignedAttrs bound the length (so the ≥ 65536 panic arm is dead)
+    SA = "repository::sigobj::SignedAttrs"
+    sites = [x for x in aggregates_of(f, SA) if not x[0].name.startswith("<")]
+    fns = sorted({x[0].name for x in sites})
+    ctx.ob("R-WHO", "SignedAttrs-constructors", set(fns) <= {SA + "::new", SA + "::take_from_with_mode"} and len(fns) >= 1,
+           "SignedAttrs(..) is built only by the decoder and the internal builder", detail=fns)
+    tb = f.body(SA + "::take_from_with_mode")
+    if tb is not None:
+        oc = outcome(tb)
+
+        def g(bd, s, bb):
+            return order_literal_edges(bd, s, bb, r"len\(", r"^65535$")
+        mp = MustPass(f, lambda c: False, guard_fn=g, name="raw.len() <= 0xFFFF")
+        ok = mp.holds(SA + "::take_from_with_mode")
+        ctx.ob("R-GRD", "SignedAttrs::take_from:len<=65535", ok,
+               "the decoder rejects signed attributes longer than 65535 bytes (encode_verify's panic arm is unreachable)",
+               where=tb.loc, detail=None if ok else why(f, mp, SA + "::take_from_with_mode"))
+
+
+def check_signed_attrs_decoder(ctx, f):
+    SA = "repository::sigobj::SignedAttrs::"
+    # each take_* helper refuses a duplicate
+    for helper, slot in (("take_content_type", "content_type"), ("take_message_digest", "message_digest"),
+                         ("take_signing_time", "signing_time")):
+        b = f.body(SA + helper)
+        if b is None:
+            ctx.missing("R-GRD", helper, SA + helper)
+            continue
+        ctx.saw_fn(SA + helper)
+        m = pred_matcher(r"Option::is_some$", (r"^%s$" % slot,), positive=False)
+        mp = MustPass(f, lambda c: False, guard_fn=lambda bd, s, bb, m=m: guard_edges(bd, s, bb, m), name="slot empty")
+        ok = mp.holds(SA + helper)
+        ctx.ob("R-GRD", "SignedAttrs::%s:no-duplicate" % helper, ok,
+               "%s fails when the attribute was already seen" % helper, where=b.loc,
+               detail=None if ok else why(f, mp, SA + helper))
+    b = f.body(SA + "take_from_with_mode")
+    if b is None:
+        return ctx.missing("R-GRD", "take_from_with_mode", SA + "take_from_with_mode")
+    ctx.saw_fn(SA + "take_from_with_mode")
+    for slot in ("message_digest", "content_type", "signing_time"):
+        found, ok, detail = variant_edge_fails(b, r"^%s⟵" % slot, 0)
+        ctx.ob("R-GRD", "SignedAttrs::take_from:%s-required" % slot, found and ok,
+               "decoding fails when the %s attribute is missing" % slot, where=b.loc, detail=detail)
+    # unknown attributes: rejected when strict
+    inner = [bd for n, bd in f.bodies.items() if n.startswith(SA + "take_from_with_mode::{closure")]
+    ok = False
+    detail = "no switch on `strict` found"
+    for bd in inner:
+        oc = outcome(bd)
+        for bi, blk in enumerate(bd.blocks):
+            t = blk["term"]
+            if t["t"] != "switch" or t.get("dty") != "bool":
+                continue
+            term = strip(oc.sym.operand(t["discr"]))
+            neg = False
+            while term[0] == "un" and term[1] == "Not":
+                neg = not neg
+                term = strip(term[2])
+            if render(term) == "^strict":
+                e = switch_bool_edges(bd, bi)
+                strict_true_t = e[0] if neg else e[1]
+                ok = strict_true_t not in oc.success_reach()
+                detail = "strict edge → bb%d in %s" % (strict_true_t, bd.name)
+    ctx.ob("R-GRD", "SignedAttrs::take_from:unknown-attr-strict", ok,
+           "an unknown signed attribute is an error in strict mode", where=b.loc, detail=detail)
+    # the raw capture kept for signature verification is the whole attribute set
+    for caller, val in ((SA + "take_from", 1), (SA + "take_from_signed_message", 0)):
+        cb = f.body(caller)
+        if cb is None:
+            ctx.missing("R-FLOW", short(caller), caller)
+            continue
+        cs = [c for c in cb.calls() if c.res == SA + "take_from_with_mode"]
+        ok = len(cs) == 1 and arg_renders(cs[0])[1] == str(val)
+        ctx.ob("R-FLOW", "%s:strict=%d" % (short(caller), val), ok,
+               "%s decodes with strict=%s" % (short(caller), bool(val)), where=cb.loc)
